@@ -127,6 +127,23 @@ def elemsOf : Obj → List Val
   | .array (.nested _ f rest) _ =>
     f ++ (rest.map (fun it => match it with | .num _ => [] | .tup vs => vs)).flatten
 
+/-- magnitude of the intermediates of `other.frombase(this.tobase(x))` over the finite elements -/
+def magOf (this other : UnitRow) (vs : List Val) : Rat :=
+  vs.foldl (fun (m : Rat) v => match v with
+    | .fin x =>
+      let base := this.toBase.eval x
+      let fr : Rat := other.fromBase.r
+      let s : Rat := if fr = 0 then 0 else absR (other.fromBase.q / fr)
+      let m1 : Rat := if this.toBase.r = 0 then 0 else s * ((absR this.toBase.p + absR (this.toBase.q * x)) / absR this.toBase.r)
+      let m2 : Rat := if fr = 0 then 0 else (absR other.fromBase.p + absR (other.fromBase.q * base)) / absR fr
+      maxR m (maxR (maxR m1 m2) (absR x))
+    | _ => m) (0 : Rat)
+
+def defaultRow (g : Reg) (c : CatInfo) (fallback : UnitRow) : UnitRow :=
+  match g.db.getInfo c.qtype c.defaultUnit true with
+  | .ok r => r
+  | .error _ => fallback
+
 /-- exact converted amounts of the elements (default unit) and the magnitude of the intermediates -/
 def convInfo (g : Reg) (q : Quant) (o : Obj) : Json :=
   match q with
@@ -136,19 +153,7 @@ def convInfo (g : Reg) (q : Quant) (o : Obj) : Json :=
     let conv := vs.map (fun v => match convToDefault g c unit this v with
       | .ok v' => valJ v'
       | .error e => errJ e)
-    let other := match g.db.getInfo c.qtype c.defaultUnit true with
-      | .ok r => r
-      | .error _ => this
-    let mag := vs.foldl (fun (m : Rat) v => match v with
-      | .fin x =>
-        let base := this.toBase.eval x
-        let fr : Rat := other.fromBase.r
-        let s : Rat := if fr = 0 then 0 else absR (other.fromBase.q / fr)
-        let m1 : Rat := if this.toBase.r = 0 then 0 else s * ((absR this.toBase.p + absR (this.toBase.q * x)) / absR this.toBase.r)
-        let m2 : Rat := if fr = 0 then 0 else (absR other.fromBase.p + absR (other.fromBase.q * base)) / absR fr
-        maxR m (maxR (maxR m1 m2) (absR x))
-      | _ => m) (0 : Rat)
-    Json.mkObj [("conv", Json.arr conv.toArray), ("M", ratJ mag)]
+    Json.mkObj [("conv", Json.arr conv.toArray), ("M", ratJ (magOf this (defaultRow g c this) vs))]
 
 def runOp (g : Reg) (j : Json) : Except String (Reg × Json) := do
   let k ← getStr j "k"
@@ -201,6 +206,44 @@ def runOp (g : Reg) (j : Json) : Except String (Reg × Json) := do
         pure (g, Json.mkObj [("ok", Json.mkObj [("outs", Json.arr (outs.map callOutJ).toArray), ("unit", symJ unit),
           ("value", match o with | .scalar v => valJ v | _ => .null),
           ("conv", (ci.getObjValD "conv")), ("M", ci.getObjValD "M")])])
+  | "copy" =>
+    let c ← getSym j "cat"
+    let oj ← match j.getObjVal? "obj" with
+      | .ok x => pure x
+      | .error _ => throw "missing obj"
+    let (o, _) ← parseObj oj
+    let cs ← (← getArr j "calls").toList.mapM parseCall
+    let ccs ← (← getArr j "ccalls").toList.mapM parseCall
+    let u ← getSym j "unit"
+    let cunit ← optSym j "cunit"
+    let ccat ← optSym j "ccat"
+    match o with
+    | .array a k0 =>
+      match mkQuant g c u with
+      | .error e => pure (g, errJ e)
+      | .ok q =>
+        let outs := calls g q o cs
+        let ci := convInfo g q o
+        let srcUnit := match q with | .simple _ su _ => su | .derived => 0
+        let srcJ := Json.mkObj [("outs", Json.arr (outs.map callOutJ).toArray), ("unit", symJ srcUnit),
+          ("conv", ci.getObjValD "conv"), ("M", ci.getObjValD "M")]
+        let k' := match afterCalls g q o cs with | .array _ k' => k' | _ => k0
+        let copyJ := match createCopy g q a k' cunit ccat with
+          | .error e => errJ e
+          | .ok (q', o') =>
+            let couts := calls g q' o' ccs
+            let cci := convInfo g q' o'
+            let extra : Rat := match q, q' with
+              | .simple _ _ t, .simple c' _ t' => magOf t (defaultRow g c' t') (elemsOf o)
+              | _, _ => 0
+            let m2 : Rat := match q' with
+              | .simple c' _ t' => magOf t' (defaultRow g c' t') (elemsOf o')
+              | .derived => 0
+            let cu := match q' with | .simple _ su _ => su | .derived => 0
+            Json.mkObj [("ok", Json.mkObj [("outs", Json.arr (couts.map callOutJ).toArray), ("unit", symJ cu),
+              ("conv", cci.getObjValD "conv"), ("M", ratJ (m2 + extra))])]
+        pure (g, Json.mkObj [("ok", Json.mkObj [("src", srcJ), ("copy", copyJ)])])
+    | _ => throw "copy needs an array"
   | _ => throw s!"unknown op kind {k}"
 
 def runOps : Reg → List Json → Except String (List Json)
